@@ -15,7 +15,7 @@ type c13 struct{ base }
 
 func init() {
 	runner.Register(&c13{base{id: "C13", level: "exploration",
-		rule: "R1 injectivity, exhaustive over a hostile pool: ALL ordered pairs of distinct (hash, range) tuples built from 17 near-colliding strings (a, a.b, b.c, a., ., a.b.c, a..b, \\, a\\.b …) for S/S, plus hash-only S, N/S, S/N, N/N, B/B and B/S schemas and three schemas over numeral-looking strings (1, 1.0, 1.00, 01, 1e0, 007 …) next to number parts with the same text: Put(k1,v1); Put(k2,v2); Get(k1)=v1; Get(k2)=v2; Scan has 2 items; Delete(k1) leaves k2. Thorough adds seeded random byte-string keys (any bytes incl. '.', NUL, backslash, UTF-8). R1b equal keys: a number key part written in two notations of one value (12 notation pairs, the other key part equal to either text) addresses one item (Get, overwrite, Scan count, Delete). R2 malformed keys, exhaustive: {missing hash, missing range, wrong type x the 9 other types} x {Put, Get, Update, Delete, BatchWrite, BatchGet} x both adapters must be rejected with a validation error. R3 every update action kind naming the hash or range attribute (bare and through #alias) on present and absent items: admissible = rejected or ignored, never an item whose key attributes differ from the key it is stored under. non-trivial = the two keys share a character with the internal separator or are prefix-related (R1), the request is malformed (R2), the update names a key attribute (R3); distinct by (schema, key pair) / (op, defect) / (action, attr).",
+		rule: "R1 injectivity, exhaustive over a hostile pool: ALL ordered pairs of distinct (hash, range) tuples built from 17 near-colliding strings (a, a.b, b.c, a., ., a.b.c, a..b, \\, a\\.b …) for S/S, plus hash-only S, N/S, S/N, N/N, B/B and B/S schemas and three schemas over numeral-looking strings (1, 1.0, 1.00, 01, 1e0, 007 …) next to number parts with the same text: Put(k1,v1); Put(k2,v2); Get(k1)=v1; Get(k2)=v2; Scan has 2 items; Delete(k1) leaves k2. Thorough adds seeded random byte-string keys (any bytes incl. '.', NUL, backslash, UTF-8). R1c: all 783 pairs of S/S keys over the alphabet {a . \\} (parts of 1-3 characters) that collide under one of seven plausible-but-wrong composite-key encodings (naive join, partial escaping, conditional escaping, concatenation). R1b equal keys: a number key part written in two notations of one value (12 notation pairs, the other key part equal to either text) addresses one item (Get, overwrite, Scan count, Delete). R2 malformed keys, exhaustive: {missing hash, missing range, wrong type x the 9 other types} x {Put, Get, Update, Delete, BatchWrite, BatchGet} x both adapters must be rejected with a validation error. R3 every update action kind naming the hash or range attribute (bare and through #alias) on present and absent items: admissible = rejected or ignored, never an item whose key attributes differ from the key it is stored under. non-trivial = the two keys share a character with the internal separator or are prefix-related (R1), the request is malformed (R2), the update names a key attribute (R3); distinct by (schema, key pair) / (op, defect) / (action, attr).",
 		assumptions: commonAssumptions}})
 }
 
@@ -113,12 +113,14 @@ func init() {
 }
 
 func (p *c13) NumCases(tier string) int {
-	n := (len(c13Pairs)+c13Block-1)/c13Block + 2 + 2 + 2
+	n := (len(c13Pairs)+c13Block-1)/c13Block + 2 + 2 + 2 + c13ConfBlocks()
 	if tier == "thorough" {
 		n += 2000
 	}
 	return n
 }
+
+func c13ConfBlocks() int { return (len(mon.ConfusablePairs()) + c13Block/2 - 1) / (c13Block / 2) }
 
 func (s c13Schema) spec() adapt.TableSpec {
 	sp := adapt.TableSpec{Name: "tbl13", Hash: "h", HashT: s.hashT, Billing: "PAY_PER_REQUEST"}
@@ -201,8 +203,19 @@ func (p *c13) RunCase(ctx *runner.Ctx) runner.CaseResult {
 		p.keyUpdates(x, adapt.Adapters[ctx.Case-blocks-2], ctx)
 	case ctx.Case < blocks+6:
 		p.equalKeys(x, adapt.Adapters[ctx.Case-blocks-4], ctx)
+	case ctx.Case < blocks+6+c13ConfBlocks():
+		// every pair of S/S keys over {a . \}^(1..3) that collides under a plausible-but-wrong encoding
+		cp := mon.ConfusablePairs()
+		b := ctx.Case - blocks - 6
+		spec := c13Schemas[0].spec()
+		for i := b * c13Block / 2; i < (b+1)*c13Block/2 && i < len(cp); i++ {
+			for _, adapter := range adapt.Adapters {
+				p.pair(x, adapter, spec, mon.KeyFor(spec, cp[i][0][0], cp[i][0][1]), mon.KeyFor(spec, cp[i][1][0], cp[i][1][1]), "S/S-confusable", ctx)
+				x.fp(true, "conf|%s|%d", adapter, i)
+			}
+		}
 	default:
-		idx := ctx.Case - blocks - 6
+		idx := ctx.Case - blocks - 6 - c13ConfBlocks()
 		r := mon.Rng(ctx.Seed, "C13", idx)
 		rb := func() string {
 			n := 1 + r.Intn(6)
